@@ -682,7 +682,7 @@ impl TypeSpace {
                             }) => metadata
                                 .title
                                 .clone()
-                                .map_or(Name::Unknown, Name::Suggested),
+                                .map_or(Name::Unknown, Name::Required),
                             _ => Name::Unknown,
                         }
                     };
